@@ -278,10 +278,14 @@ def canon_hash(obj):
     return hashlib.sha256(json.dumps(obj, sort_keys=True, separators=(",", ":")).encode()).hexdigest()[:16]
 
 
+def _is_marker(e, marker):
+    return e.get("ev") in marker if isinstance(marker, (tuple, list, set)) else e.get("ev") == marker
+
+
 def split_cases(evs, marker="reset"):
     cases, cur = [], None
     for e in evs:
-        if e["ev"] == marker:
+        if _is_marker(e, marker):
             cur = [e]
             cases.append(cur)
         elif cur is not None:
@@ -363,10 +367,10 @@ def expect_reject(ctx, spec_dir, module, path, mutate, what, cfg=None, libs=(), 
         first = min(len(orig), len(evs)) - 1
     # the enclosing case
     lo = first
-    while lo > 0 and evs[lo].get("ev") != marker:
+    while lo > 0 and not _is_marker(evs[lo], marker):
         lo -= 1
     hi = first + 1
-    while hi < len(evs) and evs[hi].get("ev") != marker:
+    while hi < len(evs) and not _is_marker(evs[hi], marker):
         hi += 1
     p2 = path + ".corrupt"
     write_ndjson(p2, evs[lo:hi])
